@@ -38,7 +38,7 @@ class Runtime(RuntimeCheck):
 
 class Check(MacroCheck):
     prop = 'C15'
-    theorems = ['C15_delegate_arm_spec', 'C15_delegator_forwards', 'C15_helper_level_irrelevant', 'C15_runtime_delegate']
+    theorems = ['C15_delegate_arm_spec', 'C15_delegator_forwards', 'C15_helper_level_irrelevant', 'C15_runtime_delegate', 'C15_source_helper_cell']
     case_prefixes = ('ref.default', 'mut.default', 'own.m2+default', 'own.default', 'rc.default', 'arc.default', 'pin.m2+default')
     runtime = Runtime()
     facts_of_interest = r'(call delegate|arm CallDefaultImpl|call unimock|target=delegator)'
